@@ -20,7 +20,9 @@ func init() {
 var methods = map[string]string{"G": "GET", "H": "HEAD", "P": "POST", "D": "DELETE", "O": "OPTIONS", "U": "PUT"}
 
 // case: http <publichex> <method> <pathhex> <cond> <depth> <gzip> <arch>
-//   cond: n none | ins If-None-Match: <etag of the resource> | ino If-None-Match: "other" | inx If-None-Match: * | ims If-Match: <etag> | imo If-Match: "other"
+//
+//	cond: n none | ins If-None-Match: <etag of the resource> | ino If-None-Match: "other" | inx If-None-Match: * | ims If-Match: <etag> | imo If-Match: "other"
+//
 // result: <status> <content-type|-|?> <content-encoding|-> <etag 0|1> <body: hex | tj ... | ->
 func c12exec(line string) (string, []string, string, string) {
 	t := newToks(line)
